@@ -46,8 +46,8 @@ def run(tier, seed):
     os.makedirs(wd)
     rep.wd = wd
     S = special.Simple(rep)
-    archs = ["sse2", "avx512bw"] if tier == "quick" else ["sse2", "avx2", "avx512f", "avx512bw"]
-    types = ["i8", "u32", "i64", "f32", "f64"] if tier == "quick" else ALL_TYPES
+    archs = ["sse2", "avx512f"] if tier == "quick" else ["sse2", "avx2", "avx512f", "avx512bw"]
+    types = ["i16", "u32", "f32", "f64"] if tier == "quick" else ALL_TYPES
     cases = [(o, t, a) for o in OPS13 for t in types if t in entries.OPS[o][2] for a in archs]
     roots = [entries.entry_name(*c) for c in cases]
     bc, fnmap, tsec = pipeline.compile_tu(wd, "c13", entries.tu_text(cases))
